@@ -51,6 +51,7 @@ type SFlow struct {
 	stats   SFlowStats
 	conn    *net.UDPConn
 	pool    chan chan struct{}
+	done    chan struct{} // closed when the receive loop has ended
 }
 
 // SFlowStats represents sflow stats
@@ -84,6 +85,7 @@ func NewSFlow() *SFlow {
 		port:    opts.SFlowPort,
 		addr:    opts.SFlowAddr,
 		workers: opts.SFlowWorkers,
+		done:    make(chan struct{}),
 	}
 }
 
@@ -155,6 +157,8 @@ func (s *SFlow) run() {
 		atomic.AddUint64(&s.stats.UDPCount, 1)
 		sFlowUDPCh <- SFUDPMsg{raddr, b[:n]}
 	}
+
+	close(s.done)
 }
 
 func (s *SFlow) shutdown() {
@@ -166,7 +170,9 @@ func (s *SFlow) shutdown() {
 	// stop reading from UDP listener
 	s.stop = true
 	logger.Println("stopping sflow service gracefully ...")
-	time.Sleep(1 * time.Second)
+	// the receive loop sees the flag within its one second read deadline, but it may
+	// also be waiting for room in a full queue: the queue is closed only after it has ended
+	<-s.done
 	s.conn.Close()
 	logger.Println("sFlow has been shutdown")
 	close(sFlowUDPCh)
